@@ -261,8 +261,8 @@ def evaluate(ctx, impls, op, a, impl, sp):
             ctx.fail(f"{op}:raises-{impl[4:]}", f"{call} raised {impl[4:]}", case, spec=sp[0])
         elif impl != sp[0]:
             cls = bit_class(impl, sp[0], w)
-            if op == "reverse_bits" and cls == "bit0-wrong" and int(impl[3:]) & 1 == 0:
-                cls = "top-bit-dropped"
+            if op == "reverse_bits" and int(impl[3:]) == int(sp[0][3:]) - 1 and int(impl[3:]) & 1 == 0:
+                cls = "top-bit-dropped"      # result bit 0 (= the most significant source bit) is missing
             ctx.fail(f"{op}:{cls}", f"{call} = {impl[3:]}, definition by bit index gives {sp[0][3:]}", case, impl=impl, spec=sp[0])
         elif op in ("rotl", "rotr"):
             inv = impls["rotr" if op == "rotl" else "rotl"]
